@@ -314,7 +314,8 @@ public:
     void configure(const ParseCfg& c) {
         fCfg = c; fRec.positions = c.positions;
         const XMLCh* scn = c.scanner == 1 ? XMLUni::fgWFXMLScanner : c.scanner == 2 ? XMLUni::fgDGXMLScanner : c.scanner == 3 ? XMLUni::fgSGXMLScanner : XMLUni::fgIGXMLScanner;
-        if (c.secMgr) { if (!fSec) fSec = new SecurityManager(); fSec->setEntityExpansionLimit((XMLSize_t)c.entityLimit); }
+        // limitAfterInstall: the application configures its SecurityManager AFTER handing it to the parser (the parser must read the limit when it parses, not when it is given the manager)
+        if (c.secMgr) { if (!fSec) fSec = new SecurityManager(); fSec->setEntityExpansionLimit(limitAfterInstall ? (XMLSize_t)c.entityLimit + 1000003 : (XMLSize_t)c.entityLimit); }
         SecurityManager* sm = c.secMgr ? fSec : nullptr;
         // installing a scanner REPLACES the scanner object (and with it everything the old one remembered): only when the kind changes
         const bool newScanner = c.scanner != fScannerKind; fScannerKind = c.scanner; if (newScanner) g_run.probe("scanner_replaced");
@@ -364,7 +365,9 @@ public:
             g->setParameter(XMLUni::fgXercesSecurityManager, (const void*)sm);
             XMLSize_t lw = c.lowWaterMark >= 0 ? (XMLSize_t)c.lowWaterMark : 100; g->setParameter(XMLUni::fgXercesLowWaterMark, (const void*)&lw);
         }
+        if (c.secMgr && limitAfterInstall) fSec->setEntityExpansionLimit((XMLSize_t)c.entityLimit);
     }
+    bool limitAfterInstall = false;
 
     void installResolver(const ParseEnv& env) {
         fResolver.env = &env; fResolver.offers.clear();
